@@ -165,6 +165,20 @@ func genJsonDec(tier string, seed uint64) {
 		emitJ([]byte(fmt.Sprintf("\"\\u%04x\\u%04x\"", hi, lo)))
 		emitJ([]byte(fmt.Sprintf("\"\\u%04x%c\"", hi, 'a'+r.intn(26))))
 	}
+	for i := 0; i < 1500; i++ {
+		// three escapes: an unpaired surrogate in front of / behind a valid pair or another unpaired one
+		u := func() int { return 0xd800 + r.intn(0x800) }
+		emitJ([]byte(fmt.Sprintf("\"\\u%04x\\u%04x\\u%04x\"", u(), u(), u())))
+		emitJ([]byte(fmt.Sprintf("\"\\u%04x\\ud83d\\ude00\"", u())))
+		emitJ([]byte(fmt.Sprintf("\"\\ud83d\\ude00\\u%04x\"", u())))
+	}
+	// very long strings and numbers (buffers of the reader grow past their first sizes)
+	for _, n := range []int{4000, 70000, 80000, 200000} {
+		emitJ([]byte("\"" + strings.Repeat("a", n) + "\""))
+		emitJ([]byte("[\"" + strings.Repeat("b", n) + "\",1]"))
+		emitJ([]byte("\"" + strings.Repeat("a", n)))
+	}
+	emitJ([]byte(strings.Repeat("1", 70000)))
 	for b := 0; b < 256; b++ {
 		emitJ([]byte{'"', byte(b), '"'})
 		emitJ([]byte{'"', '\\', byte(b), '"'})
@@ -248,6 +262,15 @@ func genJsonEnc(tier string, seed uint64) {
 		emit("jsonenc nil - s%02x", a)
 		emit("jsonenc nil - se2%02xa8", a)
 		emit("jsonenc nil - sf0%02x8080", a)
+	}
+	// the same key twice in a row (legal for a token stream), with a plain or an escape-needing string in between
+	for _, k := range []string{"s22", "s5c", "s09", "sff", "sc3a9", "s6b", "s7361792022686922", "se2"} {
+		for _, v := range []string{"s76", "s22", "i1", "b1", "0", "sff", "s"} {
+			l, i := opt()
+			emit("jsonenc %s %s {2,%s,%s,%s,%s,}", l, i, k, v, k, v)
+			emit("jsonenc %s %s [2,{1,%s,%s,},{1,%s,%s,},]", l, i, k, v, k, v)
+			emit("jsonenc %s %s {-1,%s,%s,s6b32,%s,%s,s77,}", l, i, k, v, v, k)
+		}
 	}
 	// 2. integers
 	for _, u := range boundaryU {
